@@ -17,7 +17,7 @@ META = {
     "outside": "object.__setattr__ / __dict__ manipulation that bypasses the class (not attribute assignment)",
     "assumptions": [],
 }
-WALL_BUDGET = {"quick": 480, "thorough": 3000}
+WALL_BUDGET = {"quick": 900, "thorough": 3000}
 EXTRA = ["payload", "identity", "ismsm", "_immutable", "_payload", "_payloadi", "_unknown", "_satmap", "_labelmsm", "newattr", "DF999", "x", "__class__"]
 
 
